@@ -13,6 +13,7 @@ import (
 	"github.com/ethereum/go-ethereum/params"
 	"github.com/holiman/uint256"
 	ctrlertypes "github.com/rigochain/rigo-go/ctrlers/types"
+	"github.com/rigochain/rigo-go/libs/vhook"
 	"github.com/rigochain/rigo-go/types"
 	"github.com/rigochain/rigo-go/types/bytes"
 	"github.com/rigochain/rigo-go/types/xerrors"
@@ -328,9 +329,11 @@ func (ctrler *EVMCtrler) Commit() ([]byte, int64, xerrors.XError) {
 	if err != nil {
 		panic(err)
 	}
+	vhook.At("commit/vm/statedb")
 	if err := ctrler.stateDBWrapper.Database().TrieDB().Commit(rootHash, true, nil); err != nil {
 		panic(err)
 	}
+	vhook.At("commit/vm/triedb")
 	ctrler.lastBlockHeight++
 	ctrler.lastRootHash = rootHash[:]
 
@@ -339,6 +342,7 @@ func (ctrler *EVMCtrler) Commit() ([]byte, int64, xerrors.XError) {
 	batch.Set(blockKey(ctrler.lastBlockHeight), ctrler.lastRootHash)
 	batch.WriteSync()
 	batch.Close()
+	vhook.At("commit/vm/root")
 
 	stdb, err := NewStateDBWrapper(ctrler.ethDB, ctrler.lastRootHash, ctrler.acctHandler, ctrler.logger)
 	if err != nil {
